@@ -220,6 +220,23 @@ class Run:
                     return list(range(*args))
                 if len(args) == 1 and isinstance(args[0], (list, tuple)):
                     return {"enumerate": lambda x: [(i, y) for i, y in enumerate(x)], "reversed": lambda x: list(reversed(x)), "sorted": sorted}[e.func.id](args[0]) if e.func.id != "range" else None
+                if e.func.id == "enumerate" and len(args) == 2 and isinstance(args[0], (list, tuple)) and isinstance(args[1], int):
+                    return [(i, y) for i, y in enumerate(args[0], args[1])]
+                raise Unsupported(f"call {norm(e)[:50]}")
+            if isinstance(e.func, ast.Name) and e.func.id == "next" and 1 <= len(e.args) <= 2 and not e.keywords and "next" not in self.env:
+                seq = self.ev(e.args[0])
+                if isinstance(seq, (list, tuple)):
+                    # (a generator expression is evaluated eagerly here: its elements have no effects in this language)
+                    if seq:
+                        return seq[0]
+                    if len(e.args) == 2:
+                        return self.ev(e.args[1])
+                    raise PyExc("StopIteration")
+                raise Unsupported(f"call {norm(e)[:50]}")
+            if isinstance(e.func, ast.Name) and e.func.id in ("any", "all", "min", "max", "sum") and len(e.args) == 1 and not e.keywords and e.func.id not in self.env:
+                seq = self.ev(e.args[0])
+                if isinstance(seq, (list, tuple)):
+                    return {"any": any, "all": all, "min": min, "max": max, "sum": sum}[e.func.id](seq)
                 raise Unsupported(f"call {norm(e)[:50]}")
             if isinstance(e.func, ast.Attribute) and e.func.attr in ("pop", "popleft") and len(e.args) <= 1 and not e.keywords and not any(isinstance(x, ast.Call) for x in ast.walk(e.func.value)):
                 try:
@@ -309,6 +326,44 @@ class Run:
                     self.env.pop(k, None)
             return out_
         raise Unsupported(f"expression {norm(e)[:50]}")
+
+    def call_def(self, fn: ast.FunctionDef, args: List[Any], kwargs: Optional[Dict[str, Any]] = None, closure: Optional[Dict[str, Any]] = None) -> Any:
+        """interpret a call of a function given by its source (positional / keyword arguments, constant defaults)"""
+        if self.depth > 6:
+            raise Unsupported("call depth")
+        a = fn.args
+        if a.vararg or a.kwarg or a.posonlyargs:
+            raise Unsupported(f"signature of {fn.name}")
+        names = [x.arg for x in a.args]
+        env2: Dict[str, Any] = dict(closure or {})
+        env2.update({"None": None, "True": True, "False": False})
+        defaults = dict(zip(names[len(names) - len(a.defaults):], a.defaults))
+        for kw, d in zip(a.kwonlyargs, a.kw_defaults):
+            if d is not None:
+                defaults[kw.arg] = d
+        if len(args) > len(names):
+            raise Unsupported(f"too many arguments for {fn.name}")
+        for n_, v in zip(names, args):
+            env2[n_] = v
+        for k, v in (kwargs or {}).items():
+            env2[k] = v
+        for n_ in names[len(args):] + [x.arg for x in a.kwonlyargs]:
+            if n_ not in env2:
+                if n_ not in defaults:
+                    raise Unsupported(f"missing argument {n_} for {fn.name}")
+                d = defaults[n_]
+                if not isinstance(d, ast.Constant):
+                    raise Unsupported(f"default of {n_}")
+                env2[n_] = d.value
+        sub = Run(CFG(fn), env2, self.script, self.is_fetch, self.extern, self.max_steps)
+        sub.pos = self.pos
+        sub.depth = self.depth + 1
+        sub.run()
+        self.pos = sub.pos
+        if sub.raised:
+            self.raised = sub.raised
+            raise _Raised()
+        return sub.returned
 
     def assign(self, t: ast.AST, v: Any) -> None:
         if isinstance(t, ast.Name):
@@ -409,6 +464,28 @@ class Run:
                         pass
                     elif isinstance(st, ast.FunctionDef):
                         self.env[st.name] = LocalFunction(st, self.env)
+                    elif isinstance(st, ast.Delete):
+                        for t in st.targets:
+                            if isinstance(t, ast.Subscript):
+                                base = self.ev(t.value)
+                                if not isinstance(base, (list, dict)):
+                                    raise Unsupported("del on something that is not a list or dict")
+                                if isinstance(t.slice, ast.Slice):
+                                    if not isinstance(base, list) or t.slice.step is not None:
+                                        raise Unsupported("del slice")
+                                    lo = self.ev(t.slice.lower) if t.slice.lower is not None else None
+                                    hi = self.ev(t.slice.upper) if t.slice.upper is not None else None
+                                    del base[lo:hi]
+                                else:
+                                    k = self.ev(t.slice)
+                                    try:
+                                        del base[k]
+                                    except (IndexError, KeyError) as ex_:
+                                        raise PyExc(type(ex_).__name__)
+                            elif isinstance(t, ast.Name):
+                                self.env.pop(t.id, None)
+                            else:
+                                raise Unsupported("del target")
                     elif isinstance(st, ast.Assert):
                         if not self.ev(st.test):
                             self.raised = "AssertionError"
